@@ -192,7 +192,7 @@ inductive Clause where
   | respNeedsId
   | edpRejected | edpIdF1 | edpId | edpMember (f : Field) | edpReencFailed
   | badObservation
-  | caseMatched
+  | caseMatched | caseMatchedErr
   | werrCode | werrMessage | werrNoObject
   | dtDecodeMessage
   -- id echo
@@ -286,6 +286,20 @@ def decencMonitor (w : JVal) (o : DecEncObs) : Option Clause :=
 def casedecMonitor (obs : Option (DecObs × DecObs)) : Option Clause :=
   match obs with
   | some (a, b) => if a = b then none else some .caseMatched
+  | none => some .badObservation
+
+/-- the message whose error object(s) lost every member named `nm` (what `casedec.err` decodes second) -/
+def dropErrMember (nm : Bytes) : List (Bytes × JVal) → List (Bytes × JVal)
+  | [] => []
+  | (k, .obj e) :: t =>
+    (if k = wireDecode_Error_name then (k, .obj (e.filter (fun p => p.1 ≠ nm))) else (k, .obj e)) :: dropErrMember nm t
+  | p :: t => p :: dropErrMember nm t
+
+/-- `casedec.err`: a response whose error object has a member differing from `code` / `message` / `data` in
+case only, and the same response without that member, decoded. -/
+def casedecErrMonitor (obs : Option (DecObs × DecObs)) : Option Clause :=
+  match obs with
+  | some (a, b) => if a = b then none else some .caseMatchedErr
   | none => some .badObservation
 
 /-- the code `toWireError` must put on the wire: that of the first wrapped wire error (pre-order), else 0 -/
